@@ -15,7 +15,7 @@ vars == <<l, failed, viol, st>>
 CapViol(v, new) == v \cup {x \in new : Cardinality({y \in v : y.prop = x.prop}) < 25}
 
 Init == l = 1 /\ failed = FALSE /\ viol = {} /\
-        st = [kind |-> "none", s |-> << >>, max |-> -1, limit |-> -1, cs |-> << >>, recs |-> << >>,
+        st = [kind |-> "none", s |-> << >>, max |-> -1, limit |-> -1, skipAt |-> {}, stopAt |-> {}, cs |-> << >>, recs |-> << >>,
               lso |-> 0, live0 |-> 0, chunks0 |-> 0]
 
 When(c, S) == IF c THEN S ELSE {}
@@ -48,7 +48,8 @@ Step(s, e) ==
           bad |-> IF s.kind = "chunker"
                   THEN {<<"C08", w>> : w \in TileComplaints(s.cs, s.s)}
                        \cup When(e.eof # 1, V("C08", "Eof not reached (no progress)"))
-                  ELSE When(e.eof = 1 /\ s.recs # Records(s.s, s.max, s.limit, 252, 64008, 253),
+                  ELSE When(e.eof = 1 /\ s.recs # RecordsJ(s.s, [maxSize |-> s.max, limit |-> s.limit, skipAt |-> s.skipAt,
+                                                                    stopAt |-> s.stopAt], 252, 64008, 253),
                             V("C06", "returned records differ from the valid delimited records of the stream"))]
     [] e.ev = "dropped" ->
          [st |-> s,
@@ -62,7 +63,8 @@ Next ==
      IF e.ev = "reset_after_crash" THEN      \* the process died in this run (reported by the orchestrator)
         /\ failed' = TRUE /\ UNCHANGED <<st, viol>>
      ELSE IF e.ev = "reset" THEN
-        /\ st' = [kind |-> e.kind, s |-> e.stream, max |-> e.max, limit |-> e.limit, cs |-> << >>,
+        /\ st' = [kind |-> e.kind, s |-> e.stream, max |-> e.max, limit |-> e.limit,
+                  skipAt |-> {e.skip_at[i] : i \in 1..Len(e.skip_at)}, stopAt |-> {e.stop_at[i] : i \in 1..Len(e.stop_at)}, cs |-> << >>,
                   recs |-> << >>, lso |-> 0, live0 |-> e.live, chunks0 |-> e.chunks]
         /\ failed' = FALSE /\ UNCHANGED viol
      ELSE IF failed /\ e.ev # "dropped" THEN UNCHANGED <<st, failed, viol>>
